@@ -111,7 +111,7 @@ PROPS = {
                     "16 KiB cut-offs, final state, reported identity and unused bytes are compared with a model of the specification's state machine; AUTHENTICATED without a modelled valid exchange "
                     "+ BEGIN is a violation. (ii) raw handshakes on sockets under uid 0 and uid 1 against the in-process bus: Hello answered iff valid exchange for the socket's own identity + BEGIN "
                     "and the bus admits the user/anonymous; GetConnectionCredentials reports the socket uid; a binary Hello before BEGIN is never answered."),
-        level_note="Trusts the model in targets/c08_auth.cc (transcribed from the specification's authentication state diagrams) and engine/sha1.cc; cookie ageing (stale cookies) relies on the real clock and is not forced; hex case and ERROR texts are [U].",
+        level_note="Trusts the model in targets/c08_auth.cc (transcribed from the specification's authentication state diagrams) and engine/sha1.cc; cookie ages are produced by pre-populating the keyring with generated timestamps relative to the real clock (expired, too old to hand out, fresh, future): the challenge must name a cookie at most 300 s old; hex case and ERROR texts are [U].",
         rule=("case = (server configuration, script, chunking) decoded from fuzzer input. Non-trivial = the script reaches WaitingForData or an OK (a well-formed AUTH for a permitted mechanism); distinct = FNV-1a of configuration + command-class sequence (phase i) / of the log (phase ii)."),
         phases=[P(kind="fuzz", bin="c08_auth", runs_quick=300000, runs_thorough=4800000, workers_quick=8, workers_thorough=16, max_len=512, rss=4000, timeout=60),
                 P(kind="fuzz", bin="c08_busauth", nopool_odd=True, runs_quick=4000, runs_thorough=64000, workers_quick=8, workers_thorough=16, max_len=512, rss=4000, timeout=120, detect_leaks=0)],
